@@ -37,24 +37,55 @@ let parse_op tok =
        | None -> failwith "hdr")
   | _ -> failwith "op"
 
+(* a raw store frame whose uint32 length sum wraps: the server reads outside the frame (undefined behaviour; the model's
+   take/drop do not describe it, coq/C10/Wrap.v store_check_wraps). Never generated; docs/C10_wrap.case *)
+let wraps tok =
+  String.length tok > 2 && tok.[0] = 'W' &&
+  (match parse_op tok with
+   | ORaw (_, h, _) ->
+       let kl = int_of_n h.h_u2 and dl = int_of_n h.h_u3 and tl = int_of_n h.h_u4 and sz = int_of_n h.h_size in
+       int_of_n h.h_op = 3 && kl <> 0 && kl + dl + tl <> sz && (kl + dl + tl) land 0xffffffff = sz
+   | _ -> false)
+
 let history ns flags ops =
-  let l1 = List.init (String.length flags) (fun i -> flags.[i] = '1') in
-  let w = ref (init_world (nat_of_int (int_of_string ns)) l1) in
+  if List.exists wraps ops then "H UB-WRAP" else
+  let l1 = List.init (String.length flags) (fun i -> flags.[i] = '1' || flags.[i] = 'R') in
+  (* r / R: a node configured with the server list in reverse order (NetDefs.rstep) *)
+  let reversed c = let i = int_of_nat c in i < String.length flags && (flags.[i] = 'r' || flags.[i] = 'R') in
+  let client_of = function
+    | OStore (c, _, _, _, _) | OFetch (c, _, _) | ORise (c, _) | OClear c | OEvict (c, _) | OStats c -> Some c
+    | _ -> None in
+  let x = ref (ninit (nat_of_int (int_of_string ns)) l1) in
   let b = Buffer.create 256 in
   Buffer.add_string b "H";
   let bad = ref false in
+  let inject = ref (-1) in    (* Z:n: the next call loses its connection after n bytes of the answer *)
   List.iter (fun tok ->
-    if not !bad && String.length tok > 2 && tok.[0] = 'B' then
-      (match split_on ':' tok with
-       | ["B"; sv] -> w := restart !w (nat_of_int (int_of_string sv))
-       | _ -> bad := true)
-    else if not !bad then begin
+    if !bad || String.length tok < 3 then (if String.length tok < 3 then bad := true)
+    else match tok.[0], split_on ':' tok with
+    | 'Z', [_; n] -> inject := int_of_string n
+    | 'Y', [_; _] -> ()      (* short transfers: no effect on any answer (NetProofs.transmit_schedule_independent) *)
+    | 'B', [_; sv] -> x := { nw = restart !x.nw (nat_of_int (int_of_string sv)); nw_up = !x.nw_up }
+    | 'D', [_; sv] -> x := snd (nstep !x (NDown (nat_of_int (int_of_string sv))))
+    | 'U', [_; sv] -> x := snd (nstep !x (NUp (nat_of_int (int_of_string sv))))
+    | ('B' | 'D' | 'U' | 'Y'), _ -> bad := true
+    | _ ->
       let o = parse_op tok in
-      let w0 = !w in
-      let (x, w1) = step w0 o in
-      w := w1;
-      (match o, x with
-       | OFetch (_, k, tags), ObsFetch r ->
+      let inj = !inject in
+      inject := -1;
+      let (r, x1) =
+        (match client_of o, o with
+         | Some c, _ when reversed c -> let (a, w1) = rstep !x.nw o in (NObs a, { nw = w1; nw_up = !x.nw_up })
+         (* failure after >= 1 bytes of the answer header: the retry is refused, the fetch is a miss (NGarbled) *)
+         | _, OFetch (c, k, _) when inj >= 1 -> nstep !x (NGarbled (c, k))
+         (* (a failure before any byte of the answer makes the request run once or twice, depending on whether the server had read
+            it before the connection was reset - NetProofs.transmit_any_schedule allows both; not generated before a store) *)
+         | _ -> nstep !x (NOp o)) in
+      x := x1;
+      let w1 = x1.nw in
+      (match o, r with
+       | _, NExn -> Buffer.add_string b (" !" ^ String.make 1 tok.[0])
+       | OFetch (_, k, tags), NObs (ObsFetch r) ->
            Buffer.add_string b (if tags then " f=" else " g=");
            (match r with
             | None -> Buffer.add_string b "0"
@@ -63,11 +94,10 @@ let history ns flags ops =
                 if tags then Buffer.add_string b ("." ^ show_trigs t));
            (* ground truth: the servers own caches after the call (a fetch never changes them) *)
            List.iter (fun e -> Buffer.add_string b ("|" ^ show_entry e)) (truth w1 k)
-       | _, ObsStats (k, t) -> Buffer.add_string b (" x=" ^ string_of_n k ^ "." ^ string_of_n t)
-       | _, ObsRaw (h, p) -> Buffer.add_string b (" w=" ^ hex_of_bytes (hdr_bytes h) ^ "." ^ hex_of_bytes p)
-       | _, ObsNone -> ()
-       | _, _ -> bad := true)
-    end) ops;
+       | _, NObs (ObsStats (k, t)) -> Buffer.add_string b (" x=" ^ string_of_n k ^ "." ^ string_of_n t)
+       | _, NObs (ObsRaw (h, p)) -> Buffer.add_string b (" w=" ^ hex_of_bytes (hdr_bytes h) ^ "." ^ hex_of_bytes p)
+       | _, NObs ObsNone -> ()
+       | _, _ -> bad := true)) ops;
   if !bad then "H BAD-CASE" else Buffer.contents b
 
 let show_frame (h, p) = hex_of_bytes (hdr_bytes h) ^ "." ^ hex_of_bytes p
@@ -76,6 +106,9 @@ let reply rh rp = match hdr_parse (bytes_of_hex rh) with Some h -> (h, bytes_of_
 let () = main_loop (function
   | "H" :: ns :: flags :: ops -> history ns flags ops
   | "M" :: _ -> "M"   (* concurrent run: checked by the property oracle only *)
+  | ["L"] ->          (* the flag word of the fetch request: transfer_triggers, transfer_if_not_uptodate, both *)
+      let w a b = string_of_n (fst (enc_fetch [] N0 a b)).h_u3 in
+      "L " ^ w true false ^ " " ^ w false true ^ " " ^ w true true
   | ["P"; "F"; k; g; tags; tif; rh; rp] ->
       let tags = tags = "1" and tif = tif = "1" in
       let (h, p) = reply rh rp in
@@ -85,6 +118,32 @@ let () = main_loop (function
        | FUpToDate -> "-1"
        | FNotFound -> "0"
        | FData (v, t, dl, gen) -> "1." ^ hex_of_bytes v ^ "." ^ string_of_z dl ^ "." ^ show_trigs (mkset t) ^ "." ^ string_of_n gen)
+  | "P" :: "Z" :: kind :: rest ->
+      (* failure in the middle of the answer: the header object after the failed read, the request the second attempt sends
+         (NetDefs.overlay / retry_request, the functions messenger::transmit is modelled with), and what the client makes of
+         the second answer *)
+      let (h, data), cut, rh, rp, dec =
+        (match kind, rest with
+         | "F", [k; g; tags; tif; cut; rh; rp] ->
+             let tags = tags = "1" and tif = tif = "1" in
+             enc_fetch (bytes_of_hex k) (n_of_string g) tags tif, int_of_string cut, rh, rp,
+             (fun (h2, p2) -> "r=" ^ (match dec_fetch tif tags h2 p2 with
+               | FUpToDate -> "-1" | FNotFound -> "0"
+               | FData (v, t, dl, gen) -> "1." ^ hex_of_bytes v ^ "." ^ string_of_z dl ^ "." ^ show_trigs (mkset t) ^ "." ^ string_of_n gen))
+         | "S", [k; v; dl; t; cut; rh; rp] ->
+             enc_store (bytes_of_hex k) (bytes_of_hex v) (mkset (parse_trigs t)) (z_of_string dl), int_of_string cut, rh, rp,
+             (fun _ -> "r")
+         | _ -> failwith "probe") in
+      let (ah, ap) = reply rh rp in
+      let stream = hdr_bytes ah @ ap in
+      let hb = if cut >= 40 then take (n_of_int 40) stream else overlay (take (n_of_int cut) stream) (hdr_bytes h) in
+      (match retry_request hb data with
+       | None -> "P MODEL-BAD-HEADER"
+       | Some (h2, p2) ->
+           let second = if int_of_n h2.h_op > 4 then ({ h_op = n_of_int 5; h_size = N0; h_f0 = N0; h_f1 = N0; h_u0 = N0; h_u1 = N0;
+                                                        h_u2 = N0; h_u3 = N0; h_u4 = N0; h_u5 = N0 }, []) else (ah, ap) in
+           "P " ^ show_frame (h, data) ^ " " ^ hex_of_bytes (hdr_bytes h2) ^ "." ^ hex_of_bytes p2 ^ "." ^ string_of_n h2.h_size ^
+           " " ^ dec second)
   | ["P"; "S"; k; v; dl; t; _; _] ->
       "P " ^ show_frame (enc_store (bytes_of_hex k) (bytes_of_hex v) (mkset (parse_trigs t)) (z_of_string dl)) ^ " r"
   | ["P"; "R"; t; _; _] -> "P " ^ show_frame (enc_rise (bytes_of_hex t)) ^ " r"
